@@ -300,9 +300,9 @@ def value_type(S, f):
     if k == "bool":
         return "bool" if d else "bool-false"
     if k == "int":
-        return "integer" if d != 0 else "integer-zero"
+        return "integer-negative" if d < 0 else "integer" if d != 0 else "integer-zero"
     if k == "num":
-        return "float"
+        return "float-negative" if d < 0 else "float"
     if k in ("str", "time"):
         return "string"
     if k == "enum":
@@ -322,7 +322,7 @@ def value_type(S, f):
 
 VALUE_TYPES = ("bool", "integer", "float", "string", "enum-member", "list-string", "struct-override", "union-branch-string")
 # signature value types: falsy defaults and the branch kind of a scalar union are witnesses of the same value type
-SIG_TYPE = {"bool-false": "bool", "integer-zero": "integer", "union-branch-string": "union-branch-scalar",
+SIG_TYPE = {"bool-false": "bool", "integer-zero": "integer", "integer-negative": "integer", "float-negative": "float", "union-branch-string": "union-branch-scalar",
             "union-branch-integer": "union-branch-scalar", "union-branch-bool": "union-branch-scalar", "union-branch-float": "union-branch-scalar"}
 
 
